@@ -17,6 +17,11 @@ CHECKS = {
   text="Lean 4 theorems over the executable selector model, for all address widths, ranges, ports and protocols: is_subset coincides with inclusion of the denoted packet sets (non-empty selectors); range->network->range round trip for every prefix block and port, the supernet loop bounded by the address width; the responder's policy lookup returns selectors contained in an offered pair and in the policy or refuses (TS_UNACCEPTABLE) exactly when no policy matches; rekey selectors must equal the replaced SA's; mode must match; an initiator never installs a widened response. Model validated differentially against TrafficSelector and IkeSa._get_ipsec_configuration exhaustively over a small universe and on random IPv4/IPv6 ranges.",
   note="Trusted: Lean kernel, extract/, ipaddress ordering/supernet semantics. Kernel selectors are exact only for prefix-aligned ranges (everything from_network produces); a foreign non-aligned range is widened to the enclosing prefix (observation N3).",
   technique="Lean 4 proof (interval arithmetic with omega, packet-set semantics) + exhaustive differential correspondence", ref="DESIGN.md §5 C12"),
+ 'C14': dict(
+  text="Lean 4 theorems: every ctypes structure of xfrm.py/netlink.py, laid out by the ctypes algorithm (natural alignment, little-endian host, explicit big-endian fields) from the `_fields_` tables regenerated from the source on every run, has exactly the offsets, sizes, byte order and total size of its <linux/xfrm.h>/<linux/netlink.h> counterpart (kernel evaluation over the complete table; xfrm_algo with its fixed 64-octet key tail treated explicitly); the record codec round-trips for every field list and all in-range values whatever follows (so the kernel reads what the daemon wrote and vice versa); ports are network order; message types, flags, attribute codes and the argument-to-field data flow of create_sa/create_policy/delete_sa/flush equal the kernel's/intended ones (`decide` over extracted tables); error replies fail and acks succeed. The executable request builders and event/reply parsers are validated byte-for-byte against the real Xfrm.* (socket replaced by a recorder), requests are decoded with layouts printed by a C program compiled against the kernel headers on every run, and events encoded with them are parsed by the real code.",
+  note="Trusted: Lean kernel, extract/ (gen_layouts.py), Spec/Uapi.lean (regenerated from gcc + kernel headers and compared on every run when gcc is present), x86-64 ABI. That each builder puts the intended parameter into the intended field for all parameter values is established by the extracted data-flow table plus the byte-exact correspondence and the UAPI decoder oracle on generated requests, not by a closed Lean theorem per request (string-keyed layouts do not reduce in the kernel).",
+  technique="Lean 4 proof (decide +kernel over extracted layout tables, induction for the record codec) + byte-exact differential correspondence + UAPI decoder oracle", ref="DESIGN.md §5 C14"),
+
  'C05': dict(
   text="Lean 4 theorems over the executable codec model: parse(to_bytes(m)) = m for every well-formed cleartext message of any size (all payload classes, nested SA), per-payload round trips, extension of a chain rejected, unknown non-critical payloads skipped and critical ones rejected; format strings, pack formats and the payload-class table are regenerated from message.py on every run and compared by `decide`; the model is validated differentially (Lean encoder/parser vs Message.to_bytes/parse) and the dump clause by an oracle on the real code.",
   note="Trusted: Lean kernel, extract/, hand transcription of RFC 7296 section 3 layouts in Impl.enc* (cross-checked against the implementation on every generated message), Wf predicate = what struct.pack accepts. Idempotence on arbitrary accepted byte strings, rejection of proper prefixes and the dump clause are checked by oracle on generated inputs, not proved.",
